@@ -179,6 +179,50 @@ func c08Unit(c *RunCtx, unit int) {
 			}
 		}
 	}
+	// "... carrying the original path and query so that login returns there": the refused visitor follows the
+	// redirect, logs in with the carried target, and lands where he wanted to go — for plain targets (letters of
+	// any script, digits, / . _ - ~ and an ordinary query), which no layer has a reason to touch
+	w.Store.TypedNilOnMiss = false
+	for mp := 0; mp < 2; mp++ {
+		h := w.AB.LoadClientStateMiddleware(authboss.MountedMiddleware2(w.AB, mp == 1, authboss.RequireNone, authboss.RespondRedirect)(w.ProbeHandler("c08")))
+		for _, tgt := range []string{"/p", "/kunden/müller/akte", "/wiki/東京?tab=2", "/a/b-c_d.e~f?x=1&y=2", "/страница/Ωmega"} {
+			nb++
+			b := world.NewBrowser(nb)
+			rec := w.DoOn(h, b, world.Req{Method: "GET", Path: (&url.URL{Path: strings.SplitN(tgt, "?", 2)[0]}).EscapedPath() + map[bool]string{true: "?" + strings.SplitN(tgt+"?", "?", 3)[1], false: ""}[strings.Contains(tgt, "?")]})
+			loc, err := url.Parse(rec.Location)
+			if err != nil || loc.Query().Get("redir") == "" {
+				c.Stats.Inconclusive = append(c.Stats.Inconclusive, fmt.Sprintf("c08 return: refusal of %q carried no redir (%q)", tgt, rec.Location))
+				return
+			}
+			carried := loc.Query().Get("redir")
+			// (an API client keeps the target in the URL of the login request: the JSON document is not where the
+			// redirector looks)
+			rec2 := w.Do(b, world.Req{Method: "POST", Path: w.P("/login") + "?redir=" + url.QueryEscape(carried), Form: map[string]string{"email": "known@site.test", "password": "x"}})
+			c.Stats.Evaluations++
+			c.Stats.Count("logins-after-a-refusal")
+			want := carried
+			if rec2.Header.Get("Location") != "" {
+				var sb strings.Builder
+				for i := 0; i < len(carried); i++ { // net/http writes non-ASCII bytes of a Location percent-encoded
+					if carried[i] >= 0x80 {
+						fmt.Fprintf(&sb, "%%%02x", carried[i])
+					} else {
+						sb.WriteByte(carried[i])
+					}
+				}
+				want = sb.String()
+			}
+			if rec2.SessOut["uid"] != "known@site.test" {
+				c.Stats.Inconclusive = append(c.Stats.Inconclusive, "c08 return: the login itself failed: "+rec2.HandlerErr)
+				return
+			}
+			if rec2.Location != want {
+				v := vio("C08", "login-does-not-return-to-the-refused-target", "refused at %q, redirected to the login page with redir=%q; after a successful login with that value the browser is sent to %q, not to %q", tgt, carried, rec2.Location, want)
+				c.Stats.Violations = append(c.Stats.Violations, sim.VioRec{Violation: *v, Index: unit, Cfg: cfg.String(), History: []string{"GET " + tgt, "POST /login redir=" + carried}})
+				return
+			}
+		}
+	}
 	// the same table for an identity that comes from the remember-me cookie IN THIS VERY REQUEST (no
 	// stored session at all): such a request is half-authenticated. Run with a session store that answers
 	// an empty state object and with one that answers a nil state for visitors it knows nothing about.
@@ -298,11 +342,11 @@ func c08Judge(w *world.World, rec *world.Rec, uid string, half, two bool, reqs, 
 func init() {
 	register(&Check{
 		ID: "C08", Level: "exploration", Exhaustive: true,
-		Rule:  "complete enumeration of the truth table: session uid {absent, unknown to storage, known} x halfauth mark x 2FA mark {none, twofactor, only the 2FA-setup e-mail authorisation} x requirement bits {0,1,2,3} x refusal mode {404, redirect, 401} x mountPathed (and, for the two refusal modes they can express, the deprecated bool-flag wrappers Middleware/MountedMiddleware against the same table) x Mount {'', '/auth'} x storage outcome {ok, generic error, not-found} x body mode {form, JSON} = 5184 cells, every one executed against the real MountedMiddleware2 behind LoadClientStateMiddleware with hand-made server-side session contents; each cell with the plain target plus 5 seeded targets from a corpus of hostile paths (spaces, non-ASCII, dot segments, double slashes, 300-byte paths, encoded '/', '?', ';') and queries ('&', '=', '%23', '+', repeated keys, bad escapes, 800 bytes, an own redir=). In every other cell the middleware is constructed while Paths.Mount still holds a placeholder (wiring order); the configuration in force when the request is refused counts. Oracle: handler ran <=> known user & requirements & storage ok; otherwise exactly 404 / 401 / redirect to <Mount>/login whose decoded redir equals path[+mount]?rawquery / 500 on storage error. exhaustive=true refers to the cell table; targets are sampled. Plus 192 cells in which the identity comes from the remember-me cookie in the very request (no stored session; session store answering an empty state object or a nil state): half-authenticated by definition. Two further units fire 8 anonymous clients x 150 (thorough: 1500) requests concurrently at ONE redirect-mode middleware instance behind a real server: each must be redirected with its own target. Every third cell nests the instance under test inside an outer RequireNone instance (the handler runs iff both admit; whoever refuses first answers). Cells whose session names a vanished account also run behind a tolerant LoadCurrentUser pre-loader with a storer that answers a miss with a nil *User inside a non-nil interface. distinct_nontrivial = distinct (cell → outcome) pairs.",
+		Rule:  "complete enumeration of the truth table: session uid {absent, unknown to storage, known} x halfauth mark x 2FA mark {none, twofactor, only the 2FA-setup e-mail authorisation} x requirement bits {0,1,2,3} x refusal mode {404, redirect, 401} x mountPathed (and, for the two refusal modes they can express, the deprecated bool-flag wrappers Middleware/MountedMiddleware against the same table) x Mount {'', '/auth'} x storage outcome {ok, generic error, not-found} x body mode {form, JSON} = 5184 cells, every one executed against the real MountedMiddleware2 behind LoadClientStateMiddleware with hand-made server-side session contents; each cell with the plain target plus 5 seeded targets from a corpus of hostile paths (spaces, non-ASCII, dot segments, double slashes, 300-byte paths, encoded '/', '?', ';') and queries ('&', '=', '%23', '+', repeated keys, bad escapes, 800 bytes, an own redir=). In every other cell the middleware is constructed while Paths.Mount still holds a placeholder (wiring order); the configuration in force when the request is refused counts. Oracle: handler ran <=> known user & requirements & storage ok; otherwise exactly 404 / 401 / redirect to <Mount>/login whose decoded redir equals path[+mount]?rawquery / 500 on storage error. exhaustive=true refers to the cell table; targets are sampled. Plus 192 cells in which the identity comes from the remember-me cookie in the very request (no stored session; session store answering an empty state object or a nil state): half-authenticated by definition. Two further units fire 8 anonymous clients x 150 (thorough: 1500) requests concurrently at ONE redirect-mode middleware instance behind a real server: each must be redirected with its own target. Every third cell nests the instance under test inside an outer RequireNone instance (the handler runs iff both admit; whoever refuses first answers). Cells whose session names a vanished account also run behind a tolerant LoadCurrentUser pre-loader with a storer that answers a miss with a nil *User inside a non-nil interface. After the table, the refused visitor of a redirect-mode middleware logs in with the carried target (plain paths in Latin, Cyrillic, Greek and CJK letters, with and without a query) and must be sent exactly there. distinct_nontrivial = distinct (cell → outcome) pairs.",
 		Units: func(t string) int { return 6 },
 		Run:   c08Unit,
 		Floors: func(t string) map[string]int {
-			return map[string]int{"cells": 5184, "deprecated-api-cells": 3456, "remember-cookie-cells": 192, "concurrent-refusals": 2000, "cells-with-middleware-built-before-mount-was-set": 2000}
+			return map[string]int{"cells": 5184, "deprecated-api-cells": 3456, "remember-cookie-cells": 192, "concurrent-refusals": 2000, "cells-with-middleware-built-before-mount-was-set": 2000, "logins-after-a-refusal": 40}
 		},
 		Assumptions: []string{"for mountPathed routes the library path.Join()s mount and path; targets whose path that call would normalise (dot segments, '//', trailing '/') are only required to keep their query"},
 	})
